@@ -277,6 +277,9 @@ def run(ctx):
     from .c06 import rule_hint_flag
     rule_hint_flag(ctx, mir, rid="R02.9")
 
+    # ------------------------------------------------------------------ R02.10 (generic, scoped to this property's anchors)
+    sm.rule_named_plumbing(ctx, mir, "C02", "R02.10", floor=28)
+
     ctx.not_decided += ["invariance of the concatenation of text chunks (decoder arithmetic)", "equality of outputs/events between two schedules as such (relation between runs)"]
     return ("Mechanism clauses of chunk-boundary invariance: end-of-chunk behaviour of all %d automaton states incl. every look-ahead prefix, "
             "type-driven completeness of Align impls and of adjust_for_next_input, re-basing in break_on_end_of_input, flush-before-scope-change "
